@@ -75,7 +75,7 @@ def sh(cmd, cwd=None, env=None, timeout=None):
 # ----------------------------------------------------------------------------------------------
 # unit building / verus
 # ----------------------------------------------------------------------------------------------
-def build_unit(unit, canary=False):
+def build_unit(unit, canary=False, lenient=False):
     tmpl = os.path.join(ROOT, CONFIG["units"][unit]["template"])
     os.makedirs(GEN, exist_ok=True)
     suffix = "_canary" if canary else ""
@@ -84,6 +84,7 @@ def build_unit(unit, canary=False):
     extract.Source._cache = {}
     u = extract.Unit(tmpl)
     u.canary = canary
+    u.lenient = lenient
     try:
         u.process_file(tmpl)
     except extract.ExtractError as e:
@@ -97,7 +98,7 @@ def build_unit(unit, canary=False):
         json.dump(meta, f, indent=1)
     # rewrite-rule counts must equal the committed expectation (lost anchor otherwise)
     exp = CONFIG["units"][unit].get("rewrite_counts")
-    if exp is not None and not canary:
+    if exp is not None and not canary and not lenient:
         got = meta["rewrite_counts"]
         if got != exp:
             diff = {k: (exp.get(k), got.get(k)) for k in set(exp) | set(got) if exp.get(k) != got.get(k)}
@@ -253,7 +254,22 @@ def classify(res, meta, unit):
 
 
 def verify_unit(unit):
-    rs, meta = build_unit(unit)
+    lenient = None
+    try:
+        rs, meta = build_unit(unit)
+    except Inconclusive as e:
+        if "lost anchor" not in str(e) and "rewrite-rule application counts" not in str(e):
+            raise
+        # the code was restructured under a proof hint: drop the hints that lost their anchor and try anyway.
+        # Whatever still verifies is proved (hints only help); whatever fails is UNDECIDED, not a violation.
+        rs, meta = build_unit(unit, lenient=True)
+        lenient = {"reason": str(e), "dropped": meta.get("dropped_hints", [])}
+    out = _verify_built(unit, rs, meta)
+    out["lenient"] = lenient
+    return out
+
+
+def _verify_built(unit, rs, meta):
     res = run_verus(rs)
     failures, tool = classify(res, meta, unit)
     rl = [t for t in tool if not t.get("code") and RLIMIT_MSG.search(t.get("message") or "")]
@@ -281,7 +297,10 @@ def verify_unit(unit):
 
 def canary_unit(unit):
     """vacuity guard: with `ensures false` added to every extracted function, each must FAIL."""
-    rs, meta = build_unit(unit, canary=True)
+    try:
+        rs, meta = build_unit(unit, canary=True)
+    except Inconclusive:
+        rs, meta = build_unit(unit, canary=True, lenient=True)
     res = run_verus(rs)
     failures, tool = classify(res, meta, unit)
     hard = [t for t in tool if t.get("code") or not RLIMIT_MSG.search(t.get("message") or "")]
@@ -453,6 +472,15 @@ def check_property(pid, tier, seed):
                 if pid in fn["props"]:
                     functions_under_contract.append({"fn": fn["id"], "repo": "%s:%d-%d" % (fn["file"], fn["line_start"], fn["line_end"]),
                                                      "sha256": fn["sha256"][:16], "unit": r["unit"]})
+        lenient_units = [r for r in results if r.get("lenient")]
+        if lenient_units:
+            cov["lost_anchors"] = [{"unit": r["unit"], "reason": r["lenient"]["reason"], "dropped": r["lenient"]["dropped"]} for r in lenient_units]
+            if relevant_fail:
+                # undecided obligations: only a refutation that replays on the real code counts
+                w = find_witness(pid)
+                if not w:
+                    raise Inconclusive("proof hints lost their anchors (%s); %d obligation(s) undecided and no concrete failing input found: %s" %
+                                       ("; ".join(r["lenient"]["reason"] for r in lenient_units)[:300], len(relevant_fail), ", ".join(sorted(set(f["label"] for f in relevant_fail))[:4])))
         failed_labels = set(f["label"] for f in relevant_fail)
         # body obligations: one per verus-checked function (exec fn or lemma) in the units
         body_obl = [(u, fnname) for (u, fnname, ok, _, _) in fn_rows]
@@ -587,6 +615,40 @@ def check_property(pid, tier, seed):
         return 2
 
 
+_WITNESS_CACHE = {}
+
+
+def find_witness(pid):
+    """a concrete history / schedule that violates property pid on the REAL library (excluding the clauses of
+    open known findings): first the committed witness library, then a bounded search in the replay binary."""
+    if pid in _WITNESS_CACHE:
+        return _WITNESS_CACHE[pid]
+    known = load_known()
+    excl = sorted(set(k["expect_clause"] for k in known.get("open", []) if k["property"] == pid))
+    res = None
+    wdir = os.path.join(ROOT, "witnesses")
+    if os.path.isdir(wdir):
+        for w in sorted(os.listdir(wdir)):
+            if not w.endswith(".json"):
+                continue
+            wp = os.path.join(wdir, w)
+            rc, lines, err = run_replay(wp, timeout_s=5)
+            hits = [l for l in lines if ("property=%s " % pid) in l and not any(("clause=%s " % c) in l for c in excl)]
+            if rc == 1 and hits:
+                res = (json.load(open(wp)), hits, "witness library %s" % w)
+                break
+    if res is None:
+        sp = os.path.join(REPLAYS, "search-%s.json" % pid)
+        json.dump({"kind": "search", "property": pid, "depth": 4, "budget_ms": 25000, "exclude": excl}, open(sp, "w"))
+        rc, lines, err = run_replay(sp, timeout_s=40)
+        found = [l for l in lines if l.startswith("REPLAY-FOUND ")]
+        hits = [l for l in lines if l.startswith("REPLAY-VIOLATION") and ("property=%s " % pid) in l]
+        if rc == 1 and found and hits:
+            res = (json.loads(found[0][len("REPLAY-FOUND "):]), hits, "bounded search (depth<=4) in replay")
+    _WITNESS_CACHE[pid] = res
+    return res
+
+
 def report_failure(pid, f, cfg):
     """turn a failed Verus obligation into a violation record; try to obtain a concrete failing input."""
     safe = re.sub(r"[^A-Za-z0-9_.-]+", "_", f["label"])[:120]
@@ -606,21 +668,16 @@ def report_failure(pid, f, cfg):
                 rc, lines, err = run_replay(rp)
                 if rc == 1:
                     return {"label": f["label"], "replay": rp, "confirmed": True, "detail": lines[:3]}
-    # 2. committed witness histories (a library of small histories; only used to attach a failing input)
-    wdir = os.path.join(ROOT, "witnesses")
-    if os.path.isdir(wdir):
-        for w in sorted(os.listdir(wdir)):
-            if not w.endswith(".json"):
-                continue
-            wp = os.path.join(wdir, w)
-            rc, lines, err = run_replay(wp, timeout_s=5)
-            hits = [l for l in lines if "property=%s " % pid in l]
-            if rc == 1 and hits and not witness_is_known(pid, hits):
-                rj = json.load(open(wp))
-                rj.update(base)
-                rj["source"] = "witness library %s" % w
-                json.dump(rj, open(rp, "w"), indent=1)
-                return {"label": f["label"], "replay": rp, "confirmed": True, "detail": hits[:3]}
+    # 2. committed witness histories, then a bounded search (only used to attach a failing input)
+    w = find_witness(pid)
+    if w:
+        rj = dict(w[0])
+        rj.update(base)
+        rj["source"] = w[2]
+        json.dump(rj, open(rp, "w"), indent=1)
+        rc, lines, err = run_replay(rp)
+        if rc == 1:
+            return {"label": f["label"], "replay": rp, "confirmed": True, "detail": w[1][:3]}
     base["kind"] = "obligation"
     base["note"] = "no concrete failing input was found by the verifier; the obligation passed on the unchanged tree and fails now"
     json.dump(base, open(rp, "w"), indent=1)
